@@ -1,6 +1,8 @@
 package main
 
 import (
+	"crypto/sha256"
+	"encoding/hex"
 	"encoding/json"
 	"fmt"
 	"io"
@@ -60,6 +62,11 @@ func runSelfTest(pd *PropDef, repo, out string) []map[string]interface{} {
 		return nil
 	}
 	exe, _ := os.Executable()
+	base := cacheBase(exe, repo, out, files)
+	cacheKeys := make([]string, len(vars))
+	for i, v := range vars {
+		cacheKeys[i] = variantKey(base, v.patch)
+	}
 	results := make([]map[string]interface{}, len(vars))
 	sem := make(chan struct{}, 8)
 	var wg sync.WaitGroup
@@ -72,6 +79,23 @@ func runSelfTest(pd *PropDef, repo, out string) []map[string]interface{} {
 			res := map[string]interface{}{"variant": v.name, "kind": v.kind}
 			if v.expect != nil {
 				res["expected_rules"] = v.expect
+			}
+			if entry, ok := readVariantCache(out, cacheKeys[i]); ok {
+				code := 0
+				fired := map[string]bool{}
+				if entry.Status != "" {
+					code = 2
+				}
+				if rules, bad := entry.Props[pd.ID]; bad {
+					code = 1
+					for _, rid := range rules {
+						fired[rid] = true
+					}
+				}
+				res["from_cache"] = true
+				finishVariant(res, v.kind, v.expect, code, fired)
+				results[i] = res
+				return
 			}
 			dir, err := os.MkdirTemp("", "lungocheck-selftest-")
 			if err != nil {
@@ -93,44 +117,22 @@ func runSelfTest(pd *PropDef, repo, out string) []map[string]interface{} {
 				results[i] = res
 				return
 			}
-			cmd := exec.Command(exe, "-prop", pd.ID, "-tier", "quick", "-repo", dir, "-out", out, "-no-evidence")
-			cmd.Env = append(os.Environ(), "GOFLAGS=-mod=mod", "GOPROXY=off")
-			outb, _ := cmd.CombinedOutput()
-			code := cmd.ProcessState.ExitCode()
+			// one analysis of the variant decides every property (all rules run once, verdict per property); the
+			// per-property outcome is kept so that the thorough tiers of the other properties need not repeat it
+			entry := runVariantAll(exe, dir, out)
+			writeVariantCache(out, cacheKeys[i], entry)
+			code := 0
 			fired := map[string]bool{}
-			for _, l := range strings.Split(string(outb), "\n") {
-				l = strings.TrimSpace(l)
-				if strings.HasPrefix(l, "[") && (strings.Contains(l, "VIOLATED") || strings.Contains(l, "UNDECIDED")) {
-					fired[strings.Trim(strings.SplitN(l, "]", 2)[0], "[")] = true
+			if entry.Status != "" {
+				code = 2
+			}
+			if rules, bad := entry.Props[pd.ID]; bad {
+				code = 1
+				for _, rid := range rules {
+					fired[rid] = true
 				}
 			}
-			var fl []string
-			for k := range fired {
-				fl = append(fl, k)
-			}
-			sort.Strings(fl)
-			res["exit"] = code
-			res["fired_rules"] = fl
-			switch v.kind {
-			case "breaking":
-				hit := false
-				for _, e := range v.expect {
-					if fired[e] {
-						hit = true
-					}
-				}
-				if code == 1 && hit {
-					res["outcome"] = "ok: fired"
-				} else {
-					res["outcome"] = "MISFIRE: breaking variant not reported by the expected rule"
-				}
-			default:
-				if code == 0 {
-					res["outcome"] = "ok: silent"
-				} else {
-					res["outcome"] = "MISFIRE: alarm on a behaviour-preserving variant"
-				}
-			}
+			finishVariant(res, v.kind, v.expect, code, fired)
 			results[i] = res
 		}(i, v)
 	}
@@ -196,4 +198,155 @@ func copyFiles(src, dst string, files []string) error {
 		}
 	}
 	return nil
+}
+
+func finishVariant(res map[string]interface{}, kind string, expect []string, code int, fired map[string]bool) {
+	var fl []string
+	for k := range fired {
+		fl = append(fl, k)
+	}
+	sort.Strings(fl)
+	res["exit"] = code
+	res["fired_rules"] = fl
+	switch kind {
+	case "breaking":
+		hit := false
+		for _, e := range expect {
+			if fired[e] {
+				hit = true
+			}
+		}
+		if code == 1 && hit {
+			res["outcome"] = "ok: fired"
+		} else {
+			res["outcome"] = "MISFIRE: breaking variant not reported by the expected rule"
+		}
+	default:
+		if code == 0 {
+			res["outcome"] = "ok: silent"
+		} else {
+			res["outcome"] = "MISFIRE: alarm on a behaviour-preserving variant"
+		}
+	}
+}
+
+// ---- outcome cache of the self-test -------------------------------------------------------
+//
+// Analysing one variant (load, SSA, all rules) costs about 40 CPU-seconds and gives the verdict of
+// every property at once. The thorough tiers of the 20 properties share the same behaviour-
+// preserving variants, so the verdicts are kept under <out>/.selftest-cache, keyed by the content
+// of everything they depend on: the checker binary, known_findings.json, every file of the
+// repository working tree, and the patch. Any change to one of them gives a new key; a missing or
+// unreadable entry is simply recomputed. LUNGOCHECK_NOCACHE=1 disables reading and writing.
+
+type variantOutcome struct {
+	Props  map[string][]string `json:"props"`  // property -> rules that fired (violated or undecided, known findings excluded)
+	Status string              `json:"status"` // non-empty: the variant could not be analysed
+}
+
+func hashFile(h interface{ Write([]byte) (int, error) }, path string) {
+	b, err := os.ReadFile(path)
+	if err != nil {
+		h.Write([]byte("!missing:" + path))
+		return
+	}
+	h.Write([]byte(fmt.Sprintf("%s:%d:", filepath.Base(path), len(b))))
+	h.Write(b)
+}
+
+func cacheBase(exe, repo, out string, files []string) string {
+	h := sha256.New()
+	hashFile(h, exe)
+	hashFile(h, filepath.Join(out, "known_findings.json"))
+	sorted := append([]string{}, files...)
+	sort.Strings(sorted)
+	for _, f := range sorted {
+		h.Write([]byte(f + "\x00"))
+		hashFile(h, filepath.Join(repo, f))
+	}
+	return hex.EncodeToString(h.Sum(nil))
+}
+
+func variantKey(base, patch string) string {
+	h := sha256.New()
+	h.Write([]byte(base))
+	hashFile(h, patch)
+	return hex.EncodeToString(h.Sum(nil))[:40]
+}
+
+func readVariantCache(out, key string) (variantOutcome, bool) {
+	var e variantOutcome
+	if os.Getenv("LUNGOCHECK_NOCACHE") != "" {
+		return e, false
+	}
+	b, err := os.ReadFile(filepath.Join(out, ".selftest-cache", key+".json"))
+	if err != nil || json.Unmarshal(b, &e) != nil || e.Props == nil {
+		return e, false
+	}
+	return e, true
+}
+
+func writeVariantCache(out, key string, e variantOutcome) {
+	if os.Getenv("LUNGOCHECK_NOCACHE") != "" {
+		return
+	}
+	dir := filepath.Join(out, ".selftest-cache")
+	if os.MkdirAll(dir, 0o755) != nil {
+		return
+	}
+	b, err := json.Marshal(e)
+	if err != nil {
+		return
+	}
+	tmp, err := os.CreateTemp(dir, "tmp-*")
+	if err != nil {
+		return
+	}
+	tmp.Write(b)
+	tmp.Close()
+	os.Rename(tmp.Name(), filepath.Join(dir, key+".json"))
+}
+
+// runVariantAll analyses the patched copy once with every rule and returns the verdict per property.
+func runVariantAll(exe, dir, out string) variantOutcome {
+	e := variantOutcome{Props: map[string][]string{}}
+	cmd := exec.Command(exe, "-prop", "ALL", "-repo", dir, "-out", out, "-no-evidence")
+	cmd.Env = append(os.Environ(), "GOFLAGS=-mod=mod", "GOPROXY=off")
+	outb, _ := cmd.CombinedOutput()
+	sawVerdict := false
+	for _, l := range strings.Split(string(outb), "\n") {
+		l = strings.TrimSpace(l)
+		switch {
+		case strings.HasPrefix(l, "PROP "):
+			sawVerdict = true
+			parts := strings.SplitN(l, " ", 4)
+			if len(parts) >= 3 && parts[2] == "VIOLATED" {
+				seen := map[string]bool{}
+				var rules []string
+				if len(parts) == 4 {
+					rest := parts[3]
+					if i := strings.Index(rest, ": "); i >= 0 {
+						rest = rest[i+2:]
+					}
+					for _, item := range strings.Split(rest, " ; ") {
+						if j := strings.Index(item, "["); j > 0 {
+							rid := strings.TrimSpace(item[:j])
+							if !seen[rid] {
+								seen[rid] = true
+								rules = append(rules, rid)
+							}
+						}
+					}
+				}
+				sort.Strings(rules)
+				e.Props[parts[1]] = rules
+			}
+		case strings.Contains(l, "UNANALYSABLE"):
+			e.Status = l
+		}
+	}
+	if !sawVerdict && e.Status == "" {
+		e.Status = "no verdict printed (exit " + fmt.Sprint(cmd.ProcessState.ExitCode()) + ")"
+	}
+	return e
 }
